@@ -324,6 +324,11 @@ let str_vis (v : vis) : string = match v with
    [WReopen cfg]: the store was dropped, its worker ran to completion, the directory was opened again *)
 type wstep = WEv of zev | WReopen of config | WVis of vis   (* WVis: a visible event matched against the log *)
 let recv_hint : int option ref = ref None
+(* CPU-time budget of one replay: a trace the model cannot explain may make the search over
+   batch compositions explode; past the budget the trace counts as not explained *)
+exception Budget
+let deadline : float ref = ref infinity
+let tick () = if Sys.time () > !deadline then raise Budget
 let batch_fits (z' : sys2) : bool =
   match !recv_hint with
   | None -> true
@@ -336,6 +341,7 @@ let batch_fits (z' : sys2) : bool =
 (* all (state, visible event) pairs the worker can reach next through silent steps;
    [ok] is the result of the system call if the visible event is one *)
 let rec worker_next_p (z : sys2) (ok : bool) (depth : int) (p : wstep list) : (sys2 * vis * wstep list) list =
+  tick ();
   if depth > 5000 then [] else
   let w = z.z_w in
   if not w.w_alive then []
@@ -438,6 +444,7 @@ let advance_p (z : sys2) (p : wstep list) : (sys2 * wstep list) list =
   let seen = Hashtbl.create 16 in
   let out = ref [] in
   let rec go (z : sys2) (p : wstep list) (depth : int) : unit =
+    tick ();
     if depth > 100000 then () else
     let k = state_key z in
     if Hashtbl.mem seen k then () else begin
@@ -496,9 +503,11 @@ let replay_all (z0 : sys2) (evs : (int * string) list) : string =
           else (match run_from.(i + 1) with Some n -> Some (n + 1) | None -> None))
        else Some 0)
   done;
+  deadline := Sys.time () +. (match Sys.getenv_opt "VERIF_REPLAY_BUDGET" with Some x -> float_of_string x | None -> 150.0);
   (try
      let pending_open = ref None in
      List.iteri (fun pos (i, e) ->
+         tick ();
          let hint_now = run_from.(pos) and hint_after = run_from.(pos + 1) in
          recv_hint := hint_after;
          let fail msg = stop (Printf.sprintf "mismatch: event %d `%s`: %s" i (trunc_str e 160) msg) in
@@ -618,7 +627,9 @@ let replay_all (z0 : sys2) (evs : (int * string) list) : string =
            fail (String.concat " || " (List.rev !reasons));
          if next = [] then raise Exit;
          frontier := next) evs
-   with Exit -> ());
+   with Exit -> ()
+      | Budget -> result := Some "mismatch: the replay search exceeded its time budget (the model does not explain this trace within the budget)");
+  deadline := infinity;
   match !result with
   | Some m -> m
   | None ->
